@@ -30,6 +30,11 @@ From MSDM Require Import model.PyVal model.Table.
 Import ListNotations.
 Open Scope string_scope.
 Open Scope Z_scope.
+Definition data_table (c : cls) (fs : list (pv * list pv)) (d : list Z) : table :=
+  let ix := map (fun p => mkField (fst p) (snd p)) fs in
+  mkTable c ix (fun ixs => nth (ravel (shape_of ix) ixs 0%nat) d 0).
+Definition ctor_valid (fs : list (pv * list pv)) : bool :=
+  let ix := map (fun p => mkField (fst p) (snd p)) fs in validate (shape_of ix) ix.
 """
 
 
@@ -117,14 +122,15 @@ def pv_of(x):
 CLS2COQ = {"Table": "CTable", "ProbabilityTable": "CProb", "TableDistribution": "CDist", "StateTable": "CState",
            "StateActionTable": "CStateAction", "StateActionNextStateTable": "CSAN", "TabularPolicy": "CPolicy"}
 COQ2CLS = {v: k for k, v in CLS2COQ.items()}
+CLS2COQ["StateNextStateTable"] = "CStateAction"     # same __getitem__ (StateTable's); the model keeps no separate tag
 ERR2PY = {"EKey": "KeyError", "EIndex": "IndexError", "EIndexSize": "IndexSizeError", "EMultiple": "MultipleIndexError",
           "ESlice": "SliceError", "EDomain": "DomainError", "EValue": "ValueError", "EAssert": "AssertionError",
           "EType": "TypeError", "EStateAction": "StateActionIndexError"}
-STATE_CLS = ("StateTable", "StateActionTable", "StateActionNextStateTable", "TabularPolicy")
+STATE_CLS = ("StateTable", "StateActionTable", "StateActionNextStateTable", "TabularPolicy", "StateNextStateTable")
 PROB_CLS = ("ProbabilityTable", "TabularPolicy")
 
 
-def obs_of(x):
+def obs_of(x, sns=False):
     """parsed Coq obs -> the JSON shape the impl runner emits (first 6 components for tables)"""
     c, a = ctor(x)
     if c == "OSelf": return ["self"]
@@ -133,15 +139,18 @@ def obs_of(x):
     if c == "ODefault": return ["default"]
     if c == "OEarly": return ["early"]
     if c == "OTable":
-        return ["table", COQ2CLS[ctor(a[0])[0]], [pv_of(n) for n in a[1]], [[pv_of(e) for e in d] for d in a[2]],
-                list(a[3]), [obs_of(p) for p in a[4]]]
+        cn = COQ2CLS[ctor(a[0])[0]]
+        if sns and cn == "StateActionTable":
+            cn = "StateNextStateTable"
+        return ["table", cn, [pv_of(n) for n in a[1]], [[pv_of(e) for e in d] for d in a[2]],
+                list(a[3]), [obs_of(p, sns) for p in a[4]]]
     raise vlib.CoqError("unknown obs %r" % (x,))
 
 
 # ---------------------------------------------------------------------------------------------
 # generator
 # ---------------------------------------------------------------------------------------------
-POOL = [0, 1, 2, -1, True, False, 1.0, 0.0, 2.0, 0.5, "1", "a", "b", "", None,
+POOL = [0, 1, 2, -1, -2, 2 ** 61 - 1, True, False, 1.0, 0.0, 2.0, 0.5, "1", "a", "b", "", None,
         (1,), (1, 2), ("a",), (), (1.0, 2), (True,), ((1,),), ("a", "b"), (None,), (1, "a"), (0, 1), ("a", 1),
         (1, 2, "a"), ("a", "b", "a"),
         frozenset({1}), frozenset(), frozenset({1, 2}), frozenset({"a"}), frozenset({(1,)})]
@@ -175,8 +184,9 @@ def draw_domain(rng, theme, size):
 
 def gen_table(rng, outer_size=None):
     cls = rng.choice(["Table", "Table", "ProbabilityTable", "ProbabilityTable", "StateTable", "StateActionTable",
-                      "StateActionNextStateTable", "TabularPolicy", "TabularPolicy"])
-    n = {"StateTable": 1, "StateActionTable": 2, "TabularPolicy": 2, "StateActionNextStateTable": 3}.get(cls) or rng.choice([1, 2, 2, 3, 3])
+                      "StateActionNextStateTable", "TabularPolicy", "TabularPolicy", "StateNextStateTable"])
+    n = {"StateTable": 1, "StateActionTable": 2, "TabularPolicy": 2, "StateActionNextStateTable": 3,
+         "StateNextStateTable": 2}.get(cls) or rng.choice([1, 2, 2, 3, 3])
     theme = rng.sample(POOL, rng.choice([5, 7, 9, 12]) if outer_size is None else 14)
     doms = [draw_domain(rng, theme, rng.randint(1, 4)) for _ in range(n)]
     if outer_size is not None:
@@ -207,11 +217,48 @@ def gen_table(rng, outer_size=None):
             doms[1].append(c2)
     if cls == "StateActionNextStateTable":
         doms[2] = list(doms[0])
-    if cls in ("StateTable", "StateActionTable", "StateActionNextStateTable", "TabularPolicy"):
-        names = ["state", "action", "next_state"][:n]
+    if cls == "StateNextStateTable":
+        doms[1] = list(doms[0])
+    if cls in STATE_CLS:
+        names = ["state", "next_state"] if cls == "StateNextStateTable" else ["state", "action", "next_state"][:n]
     else:
-        names = rng.choice([["f0", "f1", "f2"], ["a", "b", "c"], ["x", "x", "y"], [0, 1, 2]])[:n]
-    return {"cls": cls, "names": [enc(x) for x in names], "doms": [[enc(x) for x in d] for d in doms]}
+        names = rng.choice([["f0", "f1", "f2"], ["a", "b", "c"], ["x", "x", "y"], [0, 1, 2], ["", 0, False]])[:n]
+    # representation of the same table on the way in: how the domains are passed, which constructor,
+    # integer or float cells, and whether the objects were already used by another table (caches)
+    rep = {"doms_as": rng.choice(["list", "tuple", "domaintuple"]), "dtype": rng.choice(["int", "int", "float"]),
+           "reuse": rng.random() < .3, "ctor": "default"}
+    r = rng.random()
+    if cls in ("Table", "ProbabilityTable") and r < .3:
+        rep["ctor"] = "fields"
+    elif cls in ("StateTable", "StateActionTable", "TabularPolicy") and r < .35:
+        rep["ctor"] = "from_dict"
+        if n == 2:
+            rep["dtype"] = "float"          # StateActionTable.from_dict fills a float array
+    elif cls in STATE_CLS and r < .55:
+        rep["ctor"] = "listdata"
+    size = 1
+    for d in doms:
+        size *= len(d)
+    data = list(range(size))
+    if rng.random() < .5:
+        rng.shuffle(data)                   # distinct cells that are NOT the row-major position
+    case = {"cls": cls, "names": [enc(x) for x in names], "doms": [[enc(x) for x in d] for d in doms],
+            "rep": rep, "data": data}
+    if rep["ctor"] == "from_dict" and n == 2 and rng.random() < .5:
+        # some (state, action) pairs absent from the dict (filled with default_value), every action present once
+        pairs = [(i, j) for i in range(len(doms[0])) for j in range(len(doms[1]))]
+        miss = [pq for pq in pairs if rng.random() < .3]
+        for j in range(len(doms[1])):
+            if all((i, j) in miss for i in range(len(doms[0]))):
+                miss.remove((0, j))
+        case["missing"] = [list(m) for m in miss]
+    # a variant of the domains that Table._validate_table must reject: an ==-duplicate in one domain
+    fi = rng.randrange(n)
+    x = doms[fi][rng.randrange(len(doms[fi]))]
+    bad = [list(d) for d in doms]
+    bad[fi] = bad[fi] + [alias(rng, x)]
+    case["ctor_dup"] = [[enc(e) for e in d] for d in bad]
+    return case
 
 
 def foreign_for(rng, dom, scalar=True):
@@ -290,12 +337,16 @@ def selector_families(rng, doms, thorough):
     S, E, B = slice(None), Ellipsis, slice(0, 1)
     k = [rng.choice(d) for d in doms]
     sl = [[S], [E], [(S,)], [[S]], [[E]], [(E,)], [B], [(B,)], [[B]], [(E, E)], [[E, E]], [[S, S]],
-          [DT((S,))], [DT((E,))], [(k[0], E)], [(E, k[-1])], [(k[0], E, E)], [(S,) * n], [(S,) * (n + 1)],
+          [DT((S,))], [DT((E,))], [DT((B,))], [DT((S, S))], [DT((E, k[0]))],
+          [(tuple(doms[0]),)], [(DT(doms[0]),)], [(list(doms[0]),)], [(k[0], []), S], [(k[0], []), k[-1]], [([],)], [([],), k[0]], [(k[0], E)], [(E, k[-1])], [(k[0], E, E)], [(S,) * n], [(S,) * (n + 1)],
           [tuple(k) + (E,)], [(E,) + tuple(k)], [tuple(k) + (E, k[0])], [(k[0], B)], [(B, k[0])],
           [S, k[0]], [E, E, k[0]], [(S,), tuple(k)], [[E], [k[0]]]]
     if n >= 2:
         sl += [[(S, k[1])], [(k[0], S)], [(E, k[1])], [(S, k[1]), k[0]], [(k[0], S), k[1]], [(S, S)], [(S, E)], [(E, S)],
                [(k[0], E, k[-1])], [(S, B)], [(k[0], k[1], S)]]
+    if n >= 2:      # MultipleIndexError: two sequences / whole-domain tuples
+        sl += [[(tuple(doms[0]), tuple(doms[1]))], [([k[0]], [k[1]])], [(tuple(doms[0]), [k[1]])], [([k[0]], DT(doms[1]))],
+               [(k[0], []), k[1]], [(S, []), k[0]]]
     if n >= 3:
         sl += [[(k[0], S, k[2])], [(S, k[1], S)], [(S, S, k[2])], [(k[0], E, k[2])], [(E, k[1], k[2])], [(S, E, k[2])],
                [(k[0], S, k[2]), k[1]], [(S, S, k[2]), k[0], k[1]]]
@@ -368,7 +419,7 @@ def gen_case(rng, tier):
             keep.setdefault(f, []).append(ch)
         sel = []
         for f, chs in keep.items():
-            q = {"ext": 10, "full": 5, "nested": 3}.get(f, 2)
+            q = {"ext": 14, "full": 5, "nested": 3}.get(f, 2)
             sel += [(f, ch) for ch in (rng.sample(chs, q) if len(chs) > q else chs)]
         fams = sel
     t["chains"] = [[enc(s) for s in ch] for _, ch in fams]
@@ -392,9 +443,9 @@ def expected_prefix(case, names, ps):
     shape = [len(d) for d in doms]
     m = len(ps)
     if m == len(doms):
-        return ["scalar", cell(shape, ps)]
+        return ["scalar", case["data"][cell(shape, ps)]]
     rest = [range(s) for s in shape[m:]]
-    data = [cell(shape, list(ps) + list(r)) for r in itertools.product(*rest)]
+    data = [case["data"][cell(shape, list(ps) + list(r))] for r in itertools.product(*rest)]
     cls = case["cls"]
     probs = []
     if cls in PROB_CLS and len(doms) - m == 1:
@@ -476,7 +527,7 @@ def oracle_chain(case, names, fam, chain, out):
         ps = [doms[0].index(k) for k in ks]
         shape = [len(d) for d in doms]
         rest = [range(s) for s in shape[1:]]
-        data = [cell(shape, [p] + list(r)) for p in ps for r in itertools.product(*rest)]
+        data = [case["data"][cell(shape, [p] + list(r))] for p in ps for r in itertools.product(*rest)]
         ndoms = [[case["doms"][0][p] for p in ps]] + case["doms"][1:]
         cls = "TableDistribution" if (case["cls"] in PROB_CLS and n == 1) else case["cls"]
         if last[0] == "self":       # the whole table: only right if the list is the whole domain in order
@@ -520,7 +571,35 @@ def oracle_table(case, names, res):
 def case_term(case, names):
     fs = coqlist("(%s, %s)" % (gal(nm), coqlist(gal(e) for e in d)) for nm, d in zip(names, case["doms"]))
     chains = coqlist(coqlist(gal(s) for s in ch) for ch in case["chains"])
-    return "run_case (arange_table %s %s) %s" % (CLS2COQ[case["cls"]], fs, chains)
+    dup = coqlist("(%s, %s)" % (gal(["i", i]), coqlist(gal(e) for e in d)) for i, d in enumerate(case["ctor_dup"]))
+    return "(run_case (data_table %s %s %s) %s, ctor_valid %s)" % (CLS2COQ[case["cls"]], fs, coqlist("%d" % x for x in case["data"]), chains, dup)
+
+
+def effective(case, res):
+    """the table msdm actually built, as the model must see it: for StateActionTable.from_dict the action order
+    is msdm's (a set) and absent pairs hold default_value; everything else must be exactly what was passed in.
+    -> (effective case, None) or (None, reason)"""
+    rep = case.get("rep", {})
+    if rep.get("ctor") == "from_dict" and len(case["doms"]) == 2:
+        if res["doms"][0] != case["doms"][0]:
+            return None, "from_dict: state list is not the dict's key order"
+        gen = [repr(e) for e in case["doms"][1]]
+        if sorted(repr(e) for e in res["doms"][1]) != sorted(gen):
+            return None, "from_dict: action list is not the set of the dicts' keys"
+        perm = [gen.index(repr(e)) for e in res["doms"][1]]
+        nA = len(gen)
+        miss = set(tuple(m) for m in case.get("missing", []))
+        data = [999 if (i, j) in miss else case["data"][i * nA + j] for i in range(len(case["doms"][0])) for j in perm]
+        eff = dict(case, doms=[case["doms"][0], res["doms"][1]], data=data)
+    else:
+        eff = case
+        if res["doms"] != case["doms"]:
+            return None, "constructed table's domains differ from the ones passed in"
+    if res["data"] != eff["data"]:      # not fatal: the property oracle then judges every cell against what was passed in
+        return eff, "constructed table's data differ from the ones passed in"
+    if res["shape"] != [len(d) for d in eff["doms"]] or res["ndim"] != len(eff["doms"]):
+        return None, "shape/ndim of the table are not the domain sizes"
+    return eff, None
 
 
 def strip(o):
@@ -545,45 +624,60 @@ def run(ctx):
         nperm = (5, 2) if tier == "quick" else (30, 10)      # tables with 4 / 5 outer keys and all ordered key lists
         cases += [gen_perm_case(ctx.rng, 4) for _ in range(nperm[0])] + [gen_perm_case(ctx.rng, 5) for _ in range(nperm[1])]
     impl = ctx.impl("c12_impl.py", {"cases": cases}, shards=8 if tier == "quick" else 16)["results"]
-    terms, idx = [], []
+    terms, idx, effs = [], [], {}
     for i, (case, res) in enumerate(zip(cases, impl)):
         if "error" in res:
             ctx_violation("C12:impl-error:" + res["error"].split(":")[0], {"case": case, "error": res["error"]}, found=False)
             continue
-        terms.append(case_term(case, res["names"]))
+        eff, bad = effective(case, res)
+        if bad:
+            ctx_violation("C12:" + bad, {"case": case, "impl": {k: res[k] for k in ("doms", "data", "shape", "ndim")}}, found=False)
+            if eff is None:
+                continue
+        effs[i] = eff
+        terms.append(case_term(eff, res["names"]))
         idx.append(i)
     vals = ctx.coq(PRE, terms, shard=4 if tier == "quick" else 8)
     stats = {"chains": 0, "mirror_equal": 0, "by_family": {}, "by_kind": {}, "by_error": {}, "by_class": {},
-             "oracle_checked": 0, "outer_element_wins_collisions": 0, "incoherent_subtables_outside_quantifier": 0}
+             "by_rep": {}, "oracle_checked": 0, "outer_element_wins_collisions": 0, "incoherent_subtables_outside_quantifier": 0}
     distinct = set()
 
     def one_chain(case):
         return lambda j: dict(case, chains=[case["chains"][j]], fams=[case["fams"][j]])
 
     for i, v in zip(idx, vals):
-        case, res = cases[i], impl[i]
+        orig, case, res = cases[i], effs[i], impl[i]
         names = res["names"]
+        sns = case["cls"] == "StateNextStateTable"
+        for k_, v_ in case.get("rep", {}).items():
+            stats["by_rep"]["%s=%s" % (k_, v_)] = stats["by_rep"].get("%s=%s" % (k_, v_), 0) + 1
         stats["by_class"][case["cls"]] = stats["by_class"].get(case["cls"], 0) + 1
         if isinstance(v, vlib.CoqError):
             ctx_violation("C12:coq-evaluation-failed", {"case": case, "error": str(v)[:800]}, found=False)
             continue
         try:
-            mkeys, mlen, mitems, mchains = v
+            mkeys, mlen, mitems, mchains, mvalid = v
             mkeys = [pv_of(k) for k in mkeys]
-            mitems = [obs_of(o) for o in mitems]
-            mchains = [([obs_of(o) for o in st], obs_of(g)) for st, g in mchains]
+            mitems = [obs_of(o, sns) for o in mitems]
+            mchains = [([obs_of(o, sns) for o in st], obs_of(g, sns)) for st, g in mchains]
         except Exception as e:   # parse problem = broken correspondence
-            ctx_violation("C12:coq-output-unparsed", {"case": case, "error": repr(e)[:400]}, found=False)
+            ctx_violation("C12:coq-output-unparsed", {"case": orig, "error": repr(e)[:400]}, found=False)
             continue
+        # -- construction-time validation and fixed error paths
+        if (res.get("ctor_dup") == "ValueError") != (mvalid is False) or res.get("ctor_shape") != "ValueError":
+            ctx_violation("C12:mirror-differs:constructor-validation", {"case": dict(orig, chains=[], fams=[]),
+                          "impl": [res.get("ctor_dup"), res.get("ctor_shape")], "model_valid": mvalid}, found=False)
+        if res.get("sat_from_state_list", "NotImplementedError") != "NotImplementedError":
+            ctx_violation("C12:mirror-differs:StateActionTable.from_state_list", {"case": dict(orig, chains=[], fams=[])}, found=False)
         # -- table-level observations
         why = oracle_table(case, names, res)
         if why:
-            ctx_violation("C12:" + why, {"case": dict(case, chains=[], fams=[]), "impl": {k: res[k] for k in ("keys", "len", "items")}}, found=True)
+            ctx_violation("C12:" + why, {"case": dict(orig, chains=[], fams=[]), "impl": {k: res[k] for k in ("keys", "len", "items")}}, found=True)
         elif mkeys != res["keys"] or mlen != res["len"] or mitems != [strip(o) for o in res["items"]]:
-            ctx_violation("C12:mirror-differs:keys-items-len", {"case": dict(case, chains=[], fams=[]),
+            ctx_violation("C12:mirror-differs:keys-items-len", {"case": dict(orig, chains=[], fams=[]),
                           "model": [mkeys, mlen, mitems], "impl": [res["keys"], res["len"], res["items"]]}, found=False)
         # -- per chain
-        sub = one_chain(case)
+        sub = one_chain(orig)
         for j, (ch, fam, out, (msteps, mget)) in enumerate(zip(case["chains"], case["fams"], res["chains"], mchains)):
             stats["chains"] += 1
             stats["by_family"][fam] = stats["by_family"].get(fam, 0) + 1
@@ -606,12 +700,14 @@ def run(ctx):
             isteps = [strip(o) for o in out["steps"]]
             iget = strip(out["get"])
             same = (isteps == msteps and iget == mget and
-                    ("action_dist" not in out or strip(out["action_dist"]) == msteps[0]))
+                    ("action_dist" not in out or strip(out["action_dist"]) == msteps[0]) and
+                    strip(out["repeat"]) == msteps[0] and                           # second call on the same object
+                    out["get_none"] == ("err" if mget[0] == "err" else mget == ["default"]))   # get(key) without a default
             if why:
                 ctx_violation("C12:" + why, {"case": sub(j), "family": fam, "impl": out, "model": [msteps, mget]}, found=True)
             elif not same:
                 ctx_violation("C12:mirror-differs:" + fam + ":" + kind,
-                              {"case": sub(j), "family": fam, "impl": [isteps, iget, out.get("action_dist")], "model": [msteps, mget],
+                              {"case": sub(j), "family": fam, "impl": [isteps, iget, out.get("action_dist"), out.get("repeat"), out.get("get_none")], "model": [msteps, mget],
                                "note": "model/Table.v and msdm disagree on this selector; no clause of the property is violated by msdm's answer"},
                               found=False)
             else:
@@ -624,14 +720,17 @@ def run(ctx):
                     pd = [[dec(e) for e in d] for d in case["doms"]]
                     if sel[0] in pd[0] and all(c in pd[2] for c in sel[2]):
                         shape = [len(d) for d in pd]
-                        want = [cell(shape, [pd[0].index(sel[0]), b, pd[2].index(c)]) for b in range(shape[1]) for c in sel[2]]
+                        want = [case["data"][cell(shape, [pd[0].index(sel[0]), b, pd[2].index(c)])] for b in range(shape[1]) for c in sel[2]]
                         if last[4] != want:
                             stats["incoherent_subtables_outside_quantifier"] += 1
                             stats.setdefault("incoherent_example", {"case": sub(j), "returned": last[:5], "cells_of_the_original_at_those_keys": want})
     ctx.coverage.update({
         "evaluations": stats["chains"],
         "distinct_nontrivial": len(distinct),
-        "rule": "tables of 1-3 fields (Table, ProbabilityTable, StateTable, StateActionTable, StateActionNextStateTable, TabularPolicy), "
+        "rule": "tables of 1-3 fields (Table, ProbabilityTable, StateTable, StateActionTable, StateNextStateTable, StateActionNextStateTable, TabularPolicy) "
+                "built through every public form (TableIndex(field_names, field_domains) with list/tuple/domaintuple domains, TableIndex(fields=), "
+                "from_state_list / from_state_action_lists with ndarray or nested-list data, from_dict incl. absent pairs), integer or float cells, "
+                "cells = a random permutation of 0..N-1 for half the tables, 30% built from the objects of an already used twin table; "
                 "domains of 1-4 values drawn without ==-duplicates from a pool built to collide (0/False/0.0, 1/True/1.0, '1', (1,), (1,2), "
                 "(1.0,2), frozensets, None, ...), the outermost domain seeded with tuples that are also field-wise keys / whole domains; "
                 "plus tables with 4 (and a few with 5) outer keys indexed with ALL duplicate-free ordered lists of outer keys of length 3 and 4 "
